@@ -1,11 +1,11 @@
 package an
 
 import (
-	"sort"
 	"fmt"
 	"go/constant"
 	"go/token"
 	"go/types"
+	"sort"
 	"strings"
 	"sync"
 
@@ -1029,6 +1029,83 @@ func EdgesImplying(fn *ssa.Function, want Cmp) []Edge {
 type Cut struct {
 	Edges  []Edge
 	Instrs func(ssa.Instruction) bool // instructions at which a path stops
+	// Facts, when set, are the comparisons the Edges were selected for: a branch on a boolean that was
+	// materialised first (a phi of `a && b`, the non-constant result of a predicate helper) is resolved
+	// per incoming path, and the way on which its value establishes one of these facts is cut as well.
+	Facts []Cmp
+}
+
+// factCut: taking `v == truth` establishes one of the cut's facts.
+func (c *Cut) factCut(v ssa.Value, truth bool) bool {
+	if c == nil || len(c.Facts) == 0 {
+		return false
+	}
+	for _, f := range CondFacts(v, truth) {
+		for _, w := range c.Facts {
+			if f.Implies(w) {
+				return true
+			}
+		}
+	}
+	return false
+}
+
+// phiBranch: b ends in an If on (the negation of) a phi of b itself.
+func phiBranch(b *ssa.BasicBlock) (*ssa.Phi, bool) {
+	if len(b.Instrs) == 0 {
+		return nil, false
+	}
+	iff, ok := b.Instrs[len(b.Instrs)-1].(*ssa.If)
+	if !ok {
+		return nil, false
+	}
+	cond, neg := iff.Cond, false
+	for {
+		u, ok := cond.(*ssa.UnOp)
+		if !ok || u.Op != token.NOT {
+			break
+		}
+		cond, neg = u.X, !neg
+	}
+	if ph, ok := cond.(*ssa.Phi); ok && ph.Block() == b {
+		return ph, neg
+	}
+	return nil, false
+}
+
+// phiReturn: b returns (only) a phi of b itself.
+func phiReturn(b *ssa.BasicBlock) *ssa.Phi {
+	if len(b.Instrs) == 0 {
+		return nil
+	}
+	ret, ok := b.Instrs[len(b.Instrs)-1].(*ssa.Return)
+	if !ok || len(ret.Results) != 1 {
+		return nil
+	}
+	if ph, ok := ret.Results[0].(*ssa.Phi); ok && ph.Block() == b {
+		return ph
+	}
+	return nil
+}
+
+// incoming is the value ph takes when its block is entered from pred (nil when pred is not a unique
+// predecessor).
+func incoming(ph *ssa.Phi, pred *ssa.BasicBlock) ssa.Value {
+	if pred == nil {
+		return nil
+	}
+	var v ssa.Value
+	n := 0
+	for i, p := range ph.Block().Preds {
+		if p == pred {
+			v = ph.Edges[i]
+			n++
+		}
+	}
+	if n != 1 {
+		return nil
+	}
+	return v
 }
 
 func (c *Cut) edgeCut(b *ssa.BasicBlock, s int) bool {
@@ -1082,21 +1159,27 @@ type calleeResult struct {
 // found and whether a normal return of that function is reachable.
 func (r *reacher) run(b0 *ssa.BasicBlock, i0 int) (ssa.Instruction, bool) {
 	type start struct {
-		b *ssa.BasicBlock
-		i int
+		b    *ssa.BasicBlock
+		i    int
+		pred *ssa.BasicBlock
 	}
-	seen := map[*ssa.BasicBlock]bool{}
-	work := []start{{b0, i0}}
+	type visit struct{ b, pred *ssa.BasicBlock }
+	seen := map[visit]bool{}
+	work := []start{{b0, i0, nil}}
 	first := true
 	exits := false
 	for len(work) > 0 {
 		s := work[len(work)-1]
 		work = work[:len(work)-1]
 		if s.i == 0 {
-			if seen[s.b] {
+			key := visit{s.b, nil}
+			if ph, _ := phiBranch(s.b); ph != nil || phiReturn(s.b) != nil {
+				key.pred = s.pred // resolved per incoming path
+			}
+			if seen[key] {
 				continue
 			}
-			seen[s.b] = true
+			seen[key] = true
 		} else if !first {
 			continue
 		}
@@ -1110,13 +1193,24 @@ func (r *reacher) run(b0 *ssa.BasicBlock, i0 int) (ssa.Instruction, bool) {
 					exits = true
 					if n := len(r.retVal); n > 0 && len(ret.Results) == 1 {
 						v := ResultValues(ret)[0]
+						if ph := phiReturn(s.b); ph != nil && s.i == 0 {
+							if w := incoming(ph, s.pred); w != nil {
+								v = w
+							}
+						}
 						switch {
 						case IsConstBool(v, true):
 							r.retVal[n-1][true] = true
 						case IsConstBool(v, false):
 							r.retVal[n-1][false] = true
 						default:
-							r.retVal[n-1][true], r.retVal[n-1][false] = true, true
+							// a computed result: each outcome is possible unless taking it establishes a cut fact
+							if !r.cut.factCut(v, true) {
+								r.retVal[n-1][true] = true
+							}
+							if !r.cut.factCut(v, false) {
+								r.retVal[n-1][false] = true
+							}
 						}
 					}
 				}
@@ -1158,6 +1252,11 @@ func (r *reacher) run(b0 *ssa.BasicBlock, i0 int) (ssa.Instruction, bool) {
 		if stopped {
 			continue
 		}
+		var pv ssa.Value
+		pneg := false
+		if ph, neg := phiBranch(s.b); ph != nil && s.i == 0 {
+			pv, pneg = incoming(ph, s.pred), neg
+		}
 		for k, succ := range s.b.Succs {
 			if r.cut.edgeCut(s.b, k) {
 				continue
@@ -1165,7 +1264,14 @@ func (r *reacher) run(b0 *ssa.BasicBlock, i0 int) (ssa.Instruction, bool) {
 			if r.infeasible(s.b, k) {
 				continue
 			}
-			work = append(work, start{succ, 0})
+			if pv != nil {
+				// the branch tests a boolean materialised on the way in: resolve it for this way
+				need := (k == 0) != pneg
+				if IsConstBool(pv, !need) || r.cut.factCut(pv, need) {
+					continue
+				}
+			}
+			work = append(work, start{succ, 0, s.b})
 		}
 	}
 	return nil, exits
@@ -1262,9 +1368,19 @@ func Guarded(fn *ssa.Function, target ssa.Instruction, edges []Edge) bool {
 	return ReachFrom(fn, nil, &Cut{Edges: edges}, func(in ssa.Instruction) bool { return in == target }) == nil
 }
 
+// GuardedAny reports whether every path from entry to target establishes one of the wanted facts.
+func GuardedAny(fn *ssa.Function, target ssa.Instruction, wants ...Cmp) bool {
+	var edges []Edge
+	for _, w := range wants {
+		edges = append(edges, EdgesImplying(fn, w)...)
+	}
+	cut := &Cut{Edges: edges, Facts: wants}
+	return ReachFrom(fn, nil, cut, func(in ssa.Instruction) bool { return in == target }) == nil
+}
+
 // GuardedBy reports whether target is guarded by a fact implying want.
 func GuardedBy(fn *ssa.Function, target ssa.Instruction, want Cmp) bool {
-	if Guarded(fn, target, EdgesImplying(fn, want)) {
+	if GuardedAny(fn, target, want) {
 		return true
 	}
 	// asked in the frame of a transparent helper: every call site may carry the guard instead
